@@ -84,6 +84,23 @@ def run_property(pid, tier, seed):
         uniq.append(o)
     obls = uniq
     run_all(obls)
+    # Refutations that rest on a library call without an assumed contract (vcore/obl.py NO-CONTRACT): a violation only if the
+    # replay finds a failing input on the real code; otherwise a missing contract, i.e. undecided -- the bounded stand-ins
+    # (escalated below) then say what was explored.
+    for o in obls:
+        if o.status == REFUTED and "NO-CONTRACT:" in str(o.detail):
+            rep = None
+            if o.replay is not None:
+                try:
+                    rep = o.replay(o)
+                except Exception:
+                    rep = {"reproduced": False, "replay_error": traceback.format_exc()[-800:]}
+            if rep and rep.get("reproduced"):
+                o.meta["replay"] = rep
+                o.replay = None
+            else:
+                o.status = UNDECIDED
+                o.detail = "needs a contract, not a counterexample: " + str(o.detail)[:600] + ("; replay found no failing input" if rep is not None else "")
     ded = [o for o in obls if not o.bounded]
     bnd = [o for o in obls if o.bounded]
     # Escalation: when part of the code left the verifier's subset (undecided deductive obligations) and nothing is refuted
